@@ -43,6 +43,9 @@ def C01(V, tier):
     # partitioning calls, aggregations, fan-out/in, loops)
     k = 8 if tier == "quick" else 70
     fam = gen.join_programs(rng, k) + gen.agg_programs(rng, k) + gen.fan_programs(rng, k // 2) + gen.loop_programs(rng, k // 2)
+    # loops whose body holds state between elements (count windows, keyed aggregations): the sequential meaning
+    # evaluates every iteration afresh
+    fam += gen.loop_programs(rng, k // 2, nested=False, force="gbwin") + gen.loop_programs(rng, k // 4, nested=False, force="gbsum")
     for i, p in enumerate(fam):
         p["name"] = f"f{i}_" + p["name"]
         p["prop"] = "C01"
@@ -183,6 +186,7 @@ def C05(V, tier):
     prop_windows.C05_windows(V, tier)
     # carry nothing over: stateful operators over several iterations (folds, reorder; joins, zip, merge)
     op_replay(V, workdir("C05o"), tier, "C05", ["fold", "kfold", "reorder"])
+    sortmerge_model(V, workdir("C05m"), tier)
     binary_replay(V, workdir("C05b"), tier, "C05", JOIN_VARIANTS + [("zip", {}), ("merge", {})])
     # loops with side inputs: the boundary behind a BinaryStart with a cached side (start_out hook)
     side = gen.loop_programs(rng, 10 if tier == "quick" else 120, nested=False, side=True)
@@ -867,6 +871,21 @@ def interval_join_replay(V, wd, tier):
     V.coverage["interval_join_cases"] = len(recs) // 2
 
 
+def sortmerge_model(V, wdm, tier):
+    """M: the local sort-merge join as coded (comp/SortMergeJoin.tla) over two iterations: exactly the relational
+    join of each iteration's inputs, nothing carried over; the seeded regression (seeded/C05b) must fail."""
+    for v in ("inner", "left", "outer"):
+        cfg = f"SortMergeJoin_{v}" + ("" if tier == "quick" else "_thorough")
+        r = tlc_check(f"{SPEC}/comp/SortMergeJoin.tla", f"{SPEC}/mc/{cfg}.cfg", wdm, cfg, workers=4, timeout=3000)
+        if not r["ok"]:
+            raise ToolError(f"model check {cfg}: {r['invariant_violated']} fails on the MODEL")
+        require_coverage(r, ["LeftItem", "RightItem", "Advance", "Restart"], cfg)
+        V.add_model(r, cfg)
+    r = tlc_check(f"{SPEC}/comp/SortMergeJoin.tla", f"{SPEC}/mc/SortMergeJoin_seedC05b.cfg", wdm, "seedC05b", workers=2,
+                  coverage=False)
+    V.coverage["SortMergeJoin_seedC05b_still_fails"] = r["invariant_violated"] == "JoinOK"
+
+
 def C08(V, tier):
     # M: the symmetric local hash join as coded (comp/HashJoin.tla): every interleaving of items and end
     # markers of every small input pair gives the relational join; the seeded regression must fail
@@ -880,6 +899,7 @@ def C08(V, tier):
         V.add_model(r, cfg)
     r = tlc_check(f"{SPEC}/comp/HashJoin.tla", f"{SPEC}/mc/HashJoin_seedC08.cfg", wdm, "seedC08", workers=2, coverage=False)
     V.coverage["HashJoin_seedC08_still_fails"] = r["invariant_violated"] == "NoExtra"
+    sortmerge_model(V, wdm, tier)
     binary_replay(V, workdir("C08r"), tier, "C08", JOIN_VARIANTS)
     interval_join_replay(V, workdir("C08i"), tier)
     rng = random.Random(seed() + 8)
